@@ -1,2 +1,77 @@
-(** C04 - statements are added once the proofs exist (work in progress). *)
-From Verif Require Import Lib.Base Changelog.Model Changelog.Spec.
+(** C04 — Well-formed changelogs round-trip byte-for-byte through Changelog.
+    Only statements; every proof is [exact <lemma>].
+
+    Model: Changelog/Model.v ([parse_changelog], [format_changelog] -- the functions
+    Changelog/Check.v [agree] runs); spec: Changelog/Spec.v ([wf_changelog], [doc_of],
+    [expose] -- what [holds] uses); proofs: Changelog/CharFacts.v, LeafProofs.v, WfProofs.v.
+    [J] is the record of the thirteen "junk" classifiers (emacs / vim mode lines, cvs
+    keywords, comments, old_format_re1..8): the theorems hold for EVERY instance. *)
+From Coq Require Import String.
+From Verif Require Import Lib.Base Lib.Dec Lib.PyStr Changelog.Model Changelog.Spec Changelog.WfProofs.
+
+(** 1. wf_roundtrip.  For every text of the deb-changelog grammar -- any number of
+       blocks, any package / version / distribution list / urgency / comment / key=value
+       pairs / change lines / author / date the grammar admits, any blank lines inside and
+       between blocks and before the first heading, no bound on any length -- strict parsing
+       succeeds, emits no warning, and str() of the result is the text, byte for byte. *)
+Theorem C04_wf_roundtrip :
+  forall J t, wf_changelog t = true ->
+  exists st, parse_changelog J true false None (InStr t) = Ok st
+             /\ p_warn st = []
+             /\ format_changelog false (cl_of st) = Ok t.
+Proof. exact wf_roundtrip. Qed.
+
+(** the same in lenient mode and with allow_empty_author: no mode ever warns on a
+    well-formed text *)
+Theorem C04_wf_roundtrip_any_mode :
+  forall J strict allow t, wf_changelog t = true ->
+  exists st, parse_changelog J strict allow None (InStr t) = Ok st
+             /\ p_warn st = []
+             /\ format_changelog false (cl_of st) = Ok t.
+Proof. exact wf_roundtrip_any_mode. Qed.
+
+(** 2. wf_blocks_exposed.  The parsed blocks expose exactly the package, version,
+       distributions, urgency, urgency comment, extra key=value pairs (in file order),
+       change lines, author and date that were written, block by block in file order, and
+       the lines before the first heading are kept as the initial lines.
+       ([doc_of t = Some d]: [t] is the rendering of the well-formed document [d];
+       [exposed]: the attribute tuple of a model block; [expose]: the one the grammar
+       document stands for.) *)
+Theorem C04_wf_blocks_exposed :
+  forall J t d, doc_of t = Some d ->
+  exists st, parse_changelog J true false None (InStr t) = Ok st
+             /\ map exposed (p_blocks st) = map (fun b => Some (expose b)) (w_blocks d)
+             /\ p_initial st = w_leading d.
+Proof. exact wf_blocks_exposed. Qed.
+
+(** every well-formed text stands for a document, so theorem 2 is never vacuous *)
+Theorem C04_wf_has_doc :
+  forall t, wf_changelog t = true -> exists d, doc_of t = Some d /\ wf_doc d = true /\ render d = t.
+Proof. exact wf_changelog_doc. Qed.
+
+(** Non-vacuity: a two-block text with a leading blank line, an urgency comment, two extra
+    pairs not in sorted order, non-ASCII change text containing '#', ':' and a form feed,
+    blank lines inside a block, a one-digit space-padded day and a date without day name
+    is in the grammar; and the model, run on it, does what the theorems say. *)
+Local Open Scope string_scope.
+Definition C04_sample : str := dec
+  "\00000ahello-2.0 (1:2.10-1~bpo+1) unstable stable-security; urgency=medium (HIGH for x), x-rebuild=yes, Binary-Only=no\00000a\00000a  * New release: closes #1\00000c caf\0000e9\00000a \00000a    - sub item\00000a\00000a -- Jos\0000e9 <j@x.org>  Mon,  1 Jan 2024 10:00:00 +0000\00000a\00000ahello-2.0 (1.0) unstable; urgency=low\00000a  * Initial.\00000a -- A <a <b>>  31 Dec 2023 9:00:00 -0130\00000a \00000a".
+
+Definition C04_no_junk : junk :=
+  let f := fun _ : str => false in mkJunk f f f f f f f f f f f f f.
+
+Example C04_nonvacuous :
+  wf_changelog C04_sample = true
+  /\ (exists d, doc_of C04_sample = Some d /\ List.length (w_blocks d) = 2%nat
+                /\ map (fun b => List.length (w_pairs b)) (w_blocks d) = [2%nat; 0%nat])
+  /\ (exists st, parse_changelog C04_no_junk true false None (InStr C04_sample) = Ok st
+                 /\ p_warn st = [] /\ format_changelog false (cl_of st) = Ok C04_sample
+                 /\ List.length (p_blocks st) = 2%nat).
+Proof.
+  vm_compute. split; [reflexivity|]. split; eexists; repeat split.
+Qed.
+
+Print Assumptions C04_wf_roundtrip.
+Print Assumptions C04_wf_roundtrip_any_mode.
+Print Assumptions C04_wf_blocks_exposed.
+Print Assumptions C04_wf_has_doc.
